@@ -1,0 +1,63 @@
+//! network I/O (C17/C18), compiled only with `--cfg may_verif`: the *environment inputs* of the io handshake. None of these
+//! wraps a shared-memory operation; they are reported as events on the socket's `io_flag` object (`AtomicUsize::mark`) so that
+//! the trace says which socket they are about.
+use super::{atomic, hooks};
+
+/// the part of a system-call result the io model looks at
+pub trait SysOk {
+    fn sys_n(&self) -> u64;
+}
+impl SysOk for usize {
+    fn sys_n(&self) -> u64 {
+        *self as u64
+    }
+}
+impl SysOk for () {
+    fn sys_n(&self) -> u64 {
+        0
+    }
+}
+impl<A: SysOk, B> SysOk for (A, B) {
+    fn sys_n(&self) -> u64 {
+        self.0.sys_n()
+    }
+}
+impl SysOk for std::net::TcpStream {
+    fn sys_n(&self) -> u64 {
+        0
+    }
+}
+#[cfg(unix)]
+impl SysOk for std::os::unix::net::UnixStream {
+    fn sys_n(&self) -> u64 {
+        0
+    }
+}
+pub trait SysErr {
+    fn sys_errno(&self) -> i32;
+}
+impl SysErr for std::io::Error {
+    fn sys_errno(&self) -> i32 {
+        self.raw_os_error().unwrap_or(9999)
+    }
+}
+#[cfg(unix)]
+impl SysErr for nix::errno::Errno {
+    fn sys_errno(&self) -> i32 {
+        *self as i32
+    }
+}
+
+/// report the result of a non-blocking system call on the socket that owns `flag`: event `sys.<what>` with
+/// result `n` (success) or `-errno`. Always returns false, so it can be the guard of an added, never taken
+/// `match` arm placed in front of the existing arms.
+pub fn sys<T: SysOk, E: SysErr>(flag: &atomic::AtomicUsize, what: &'static str, r: &Result<T, E>) -> bool {
+    if hooks().is_some() {
+        let res = match r {
+            Ok(t) => t.sys_n(),
+            Err(e) => (-(e.sys_errno() as i64)) as u64,
+        };
+        flag.mark(what, 0, res);
+    }
+    false
+}
